@@ -115,6 +115,13 @@ def run_call(ct, call):
     if api == "kahypar.build_agglom":
         return canon_tree(path_kahypar.kahypar_to_tree.build_agglom(inputs, output, size, seed=seed, groupsize=3))
     tree = start_tree(ct, net)
+    kw = dict(kw)
+    if kw.pop("presliced", False):
+        # start from an already sliced tree so that un-slicing branches of the annealers run
+        for ix in sorted(size)[:3]:
+            tree.remove_ind_(ix)
+    if kw.get("target_size") == "current":
+        kw["target_size"] = tree.max_size()
     if api == "tree.slice":
         return canon_tree(tree.slice(target_size=max(1, tree.max_size() // 4), seed=seed, temperature=0.5, **kw))
     if api == "SliceFinder":
